@@ -73,7 +73,7 @@ Lemma lock_rpc_fail_task all rk assigned rv ce loie f o s e :
   lo_res o = Some e -> (many rk || may_be_locked e) = true ->
   In (TPessRb all (N.max f (eff_lwc s rk o))) (tasks (lock_rpc all rk assigned rv ce loie f o s)).
 Proof.
-  intros Hr Hb. unfold lock_rpc. rewrite Hr, Hb.
+  intros Hr Hb. unfold lock_rpc. cbn [tasks set_ka]. unfold lock_rpc_core. rewrite Hr, Hb.
   match goal with |- In ?T (tasks (if assigned then set_primary None ?X else ?X)) =>
     assert (In T (tasks X)) as HX; [| destruct assigned; auto] end.
   match goal with |- In ?T (tasks (match agg ?Y with Some a => _ | None => _ end)) =>
@@ -105,8 +105,8 @@ Qed.
 Lemma lock_rpc_fail_flags all rk assigned rv ce loie f o s e :
   lo_res o = Some e -> flags (lock_rpc all rk assigned rv ce loie f o s) = flags s.
 Proof.
-  intros Hr. unfold lock_rpc. rewrite Hr.
-  destruct s as [a1 a2 a3 a4 a5 ag a7 a8 a9 a10 a11 a12 a13].
+  intros Hr. unfold lock_rpc. cbn [flags set_ka]. unfold lock_rpc_core. rewrite Hr.
+  destruct s as [a1 a2 a3 a4 a5 ag a7 a8 a9 a10 a11 a12 a13 a14].
   destruct assigned; destruct (many rk || may_be_locked e); destruct ag; reflexivity.
 Qed.
 
